@@ -199,6 +199,18 @@ func c15Table(c *core.Ctx, pkg *packages.Package) {
 		ok = res.OK() && len(tr) == 1 && len(fr) == 1
 		detail = res.Summary()
 	}
+	if len(loops) == 0 {
+		// the same membership test with the standard library: return slices.Contains(table[from], to)
+		rets := []string{}
+		for _, b := range g.Blocks {
+			if r := an.ReturnOf(b); r != nil && len(r.Results) == 1 {
+				rets = append(rets, fn.Canon(r.Results[0]))
+			}
+		}
+		if len(rets) == 1 && rets[0] == "slices.Contains(pkg.allowedPartitionStateChanges[p0], p1)" {
+			ok, detail = true, "membership by slices.Contains(table[from], to)"
+		}
+	}
 	c.Check(ok && writes == 0, "R1", "func=isPartitionStateChangeAllowed", fn.Pos(), fmt.Sprintf("returns true ⇔ `to` equals an entry of table[from], false otherwise; table written elsewhere %d times: %s", writes, detail), 2)
 }
 
